@@ -229,3 +229,40 @@ func ambiguousBackrefCases(st *Stats, prefix string) []Case {
 	}
 	return cases
 }
+
+// where a binding lands when named loops are open (C02): bindings in later iterations of a lazy named loop, after a
+// named loop inside a later unnamed loop / optional group, between nested named loops, after backtracking out of an
+// inner named loop — the table a `= name` writes to must be that of the innermost named loop OPEN ON THAT PATH.
+func namedScopeCases(st *Stats, prefix string) []Case {
+	shapes := []string{
+		"at least 1 (letter = c) fewest named L '!'",
+		"at least 1 (letter = c) named L '!'",
+		"(at least 1 (digit = d) named L) maybe (letter = c)",
+		"(at least 1 (digit = d) named L) at least 0 (letter = c)",
+		"at least 1 ((at least 1 digit named inner) (letter = c)) named outer",
+		"at least 1 ((at least 1 (digit = d) named inner) (letter = c)) named outer",
+		"at least 1 ((at least 0 (digit = d) fewest named inner) (letter = c)) fewest named outer '!'",
+		"(at least 1 ((letter = c) or (digit = d)) named L) (any = e)",
+		"at least 1 (maybe (at least 1 (digit = d) named inner) (letter = c)) named outer",
+		"(at least 1 (letter = c) named A) (at least 1 (digit = d) named B) maybe ('!' = e)",
+		"at least 1 ((letter = c) at most 2 (digit = d)) named L maybe ('!' = e)",
+	}
+	texts := []string{"ab!", "12a", "1a22b", "a1b22c!", "ab1!", "12", "a!", "1a2b3c!x", "abc", "a12b!"}
+	cases := []Case{}
+	i := 0
+	for si, sh := range shapes {
+		for _, text := range texts {
+			for _, kind := range []string{"find all ", "replace all "} {
+				i++
+				src := kind + sh
+				if kind == "replace all " {
+					src += " with '<' c '>'"
+				}
+				st.Features[fmt.Sprintf("named-scope-%d", si)]++
+				cases = append(cases, Case{ID: fmt.Sprintf("%s%d", prefix, i), Op: "run",
+					Fields: []string{hx(src), hx(text)}, Meta: map[string]string{}})
+			}
+		}
+	}
+	return cases
+}
